@@ -237,6 +237,9 @@ impl BuildSystem {
             _ => return Err("Invalid validation library. Use 'zod' or 'none'".into()),
         };
 
+        // The previous cache record stops being valid as soon as files are rewritten
+        GenerationCache::invalidate(&config.output_path);
+
         let mut generator = create_generator(validation);
         let generated_files = generator.generate_models(
             &commands,
